@@ -30,6 +30,8 @@ type Prov struct {
 	loadCtx  []ssa.Instruction // the load instruction(s) through which the current value is read
 	expansions map[string]string // atom of a call to a single-expression module helper -> atom of its body
 	reachMemo map[[2]*ssa.BasicBlock]bool
+	globalConst map[*ssa.Global]*ssa.Const // see constGlobal
+	globalScan  bool
 }
 
 // storeReaches: can the store instruction execute before the load (flow-sensitivity for locals)?
@@ -763,6 +765,9 @@ func (pv *Prov) Atom(v ssa.Value, env *Env) string {
 	case *ssa.Function:
 		return "func " + FuncName(x)
 	case *ssa.Global:
+		if k := pv.constGlobal(x); k != nil {
+			return pv.Atom(k, env) // a scalar package variable that is initialised with a constant and never written again
+		}
 		return "global " + relPkg(x.Pkg.Pkg) + "." + x.Name()
 	case *ssa.MakeSlice, *ssa.MakeMap, *ssa.MakeChan:
 		return "make"
@@ -843,4 +848,64 @@ func (pv *Prov) ExpandAll(s string, pattern ...string) string {
 		}
 	}
 	return s
+}
+
+// constGlobal: the constant a module package-level variable of basic type holds forever: it is stored exactly
+// once (by the package initialiser, a constant) and its address is used for nothing but loads.
+func (pv *Prov) constGlobal(g *ssa.Global) *ssa.Const {
+	pt, ok := g.Type().Underlying().(*types.Pointer)
+	if !ok {
+		return nil
+	}
+	if _, basic := pt.Elem().Underlying().(*types.Basic); !basic {
+		return nil
+	}
+	if !pv.globalScan {
+		pv.globalScan = true
+		pv.globalConst = map[*ssa.Global]*ssa.Const{}
+		stores := map[*ssa.Global]int{}
+		escaped := map[*ssa.Global]bool{}
+		val := map[*ssa.Global]*ssa.Const{}
+		for fn := range pv.p.AllFuncs() {
+			if !pv.p.InModule(fn) {
+				continue
+			}
+			for _, b := range fn.Blocks {
+				for _, in := range b.Instrs {
+					for _, op := range in.Operands(nil) {
+						gl, isG := (*op).(*ssa.Global)
+						if !isG {
+							continue
+						}
+						switch x := in.(type) {
+						case *ssa.Store:
+							if x.Addr == ssa.Value(gl) {
+								stores[gl]++
+								if k, isK := x.Val.(*ssa.Const); isK && fn.Name() == "init" {
+									val[gl] = k
+								} else {
+									escaped[gl] = true
+								}
+							} else {
+								escaped[gl] = true
+							}
+						case *ssa.UnOp:
+							if x.Op != token.MUL {
+								escaped[gl] = true
+							}
+						case *ssa.DebugRef:
+						default:
+							escaped[gl] = true
+						}
+					}
+				}
+			}
+		}
+		for gl, k := range val {
+			if stores[gl] == 1 && !escaped[gl] {
+				pv.globalConst[gl] = k
+			}
+		}
+	}
+	return pv.globalConst[g]
 }
